@@ -313,7 +313,10 @@ def patch_filter(ctx, fx, sp):
                       "a line containing the marker still reaches update()", body.span_of(a.bb))
         else:
             saw_keep = True
-            ok = len(ups) == 2 and strip_refs(ups[0].args[1]) == line_t and const_bytes(ups[1].args[1]) == "\n"
+            # the line as the splitter delivered it: the Ok payload of Split::next()'s item, not a local that was edited in between (pop, truncate, retain ...)
+            lt = line_t
+            pristine = isinstance(lt, tuple) and lt and lt[0] != "mutated" and not is_call(lt) and mentions(lt, lambda s_: is_call(s_, "io::Split<B> as std::iter::Iterator>::next", "Split as std::iter::Iterator>::next"))
+            ok = len(ups) == 2 and strip_refs(ups[0].args[1]) == line_t and const_bytes(ups[1].args[1]) == "\n" and pristine
             ctx.check(ok, "D5-FILTER", fn, "keep-path-%d" % i, "kept line: update(line); update(b\"\\n\")",
                       "kept line is followed by %s; expected exactly update(line) then update(b\"\\n\")" % [term_str(u.args[1]) for u in ups],
                       body.span_of(a.bb))
